@@ -165,7 +165,7 @@ def temporal_case(ctx, rng, idx):
     from hypergraphx.measures import s_centralities as sc
 
     cfg = history.Cfg(rng, "T", uni=rng.choice(["small", "gaps", "str", "str", "bigneg"]))
-    cfg.invalid_rate = 0
+    cfg.invalid_rate = 0.1  # refused calls are part of the build: they must leave no trace in what is measured
     cfg.avoid = {"copy", "clear"}
     cfg.n_ops = rng.randint(5, 25)
     try:
